@@ -202,9 +202,16 @@ func Worker() int {
 		fmt.Fprintln(os.Stderr, "c13worker: cannot set RLIMIT_AS:", err)
 	}
 	// A goroutine stack of 64 MiB is beyond anything the small inputs of this
-	// check can need; exceeding it is unbounded recursion and kills the process
-	// with "goroutine stack exceeds" which the explorer recognises.
-	debug.SetMaxStack(64 << 20)
+	// check can need; exceeding the limit is unbounded recursion and kills the
+	// process with "goroutine stack exceeds" which the explorer recognises.
+	if os.Getenv("VERIF_DEPTH_COUNTER") == "on" {
+		debug.SetMaxStack(64 << 20)
+	} else {
+		// Without the depth counter the stack limit is what makes unbounded recursion
+		// visible within seconds: 8 MiB is still orders of magnitude above what the
+		// inputs of this check (a few KiB at most) can legitimately need.
+		debug.SetMaxStack(8 << 20)
+	}
 	root := os.Getenv("VERIF_WDIR")
 	if root == "" {
 		root = os.TempDir()
